@@ -62,6 +62,9 @@ type MerkleCase struct {
 	Arg  int    `json:"arg"`
 	Inst int    `json:"inst"`
 	Impl bool   `json:"impl"`
+	// Again is the verdict of the SAME call repeated after the genuine proof of the same leaf (same concrete hashes) was
+	// verified in between: inclusion is a relation on (leaf, position, path, root), not on the history of calls.
+	Again bool `json:"again"`
 }
 
 func rnd32(r *rand.Rand) []byte {
@@ -87,7 +90,7 @@ func MerkleReplay(casesFile, outFile string, seed int64, inst int) (int, error) 
 		}
 		for k := 0; k < inst; k++ {
 			c.Inst = k
-			c.Impl = merkleCall(r, &c)
+			c.Impl, c.Again = merkleCall(r, &c)
 			w.Emit(&c)
 			n++
 		}
@@ -96,7 +99,7 @@ func MerkleReplay(casesFile, outFile string, seed int64, inst int) (int, error) 
 	return n, err
 }
 
-func merkleCall(r *rand.Rand, c *MerkleCase) bool {
+func merkleCall(r *rand.Rand, c *MerkleCase) (bool, bool) {
 	leaves := make([][]byte, c.N)
 	for i := range leaves {
 		leaves[i] = rnd32(r)
@@ -164,5 +167,8 @@ func merkleCall(r *rand.Rand, c *MerkleCase) bool {
 	if c.Hi == 1 {
 		pos |= []uint32{1 << 31, 1 << 24, 1 << 20, 1<<31 | 1<<30}[c.Inst%4]
 	}
-	return bitcointypes.VerifyMerkelProof(leaf, root, raw, pos)
+	first := bitcointypes.VerifyMerkelProof(leaf, root, raw, pos)
+	// the genuine proof of the same leaf at its real position, then the very same question again
+	bitcointypes.VerifyMerkelProof(leaves[c.I], t.Root(), flat(g), uint32(c.I))
+	return first, bitcointypes.VerifyMerkelProof(leaf, root, raw, pos)
 }
